@@ -111,7 +111,7 @@ func scenarioC05(r *Run) {
 		// countersignature on ...): the rules hold in every layer however deep
 		// the damage lands
 		deep := to
-		deep.CsigDepth, deep.ForeignPct = 7, 70
+		deep.CsigDepth, deep.ForeignPct = []int{7, 11, 14}[t.Choose(3, "c05.deep.depth")], 70 // 14 levels stay inside the CBOR nesting limit when no level uses the list form
 		b, victim = r.damagedInput(t, fm, ent, deep, 2)
 		r.Probe("damage-in-deep-countersignature-chain")
 	} else {
